@@ -886,6 +886,54 @@ def build_unit(verif, repo, template_path, canary=False, soft=False, extra_fns=N
                 u.items.append({'item': '%s %s' % (kind, name), 'file': f, 'line': src.count('\n', 0, it.start) + 1,
                                 'sha256': hashlib.sha256(raw.encode()).hexdigest(), 'rules': fired})
                 emit(text + '\n', 'CODE', '%s:%d' % (f, src.count('\n', 0, it.start) + 1)); i += 1; continue
+            if cmd == 'derivedclone':
+                # //@ derivedclone <repo file> <Struct> "<ensures text>"   (rule R11)
+                # #[derive(Clone)] present: the field-wise expansion is generated from the struct's own field list;
+                # otherwise the hand-written `impl Clone for <Struct>` of the repository is extracted under the same contract.
+                f, name, ens = parts[1], parts[2], parts[3]
+                src = open(os.path.join(repo, f)).read()
+                it, n = find_item(src, 'struct', name)
+                if it is None:
+                    raise ExtractError('anchor lost: struct %s in %s (%d matches)' % (name, f, n))
+                raw = drop_comments(src[it.start:it.end])
+                if re.search(r'#\s*\[\s*derive\s*\([^\]]*\bClone\b', raw):
+                    tuple_like = '{' not in raw
+                    body = raw[raw.index('(', raw.index(name)) + 1: raw.rindex(')')] if tuple_like else raw[raw.index('{') + 1: raw.rindex('}')]
+                    flds = []
+                    depth = 0; curf = ''
+                    for ch in body:
+                        if ch in '<([': depth += 1
+                        if ch in '>)]': depth -= 1
+                        if ch == ',' and depth == 0:
+                            flds.append(curf); curf = ''
+                        else: curf += ch
+                    if curf.strip(): flds.append(curf)
+                    inits = []
+                    for fd in flds:
+                        fd = re.sub(r'#\s*\[[^\]]*\]', '', fd).strip()
+                        if not fd: continue
+                        if tuple_like:
+                            fty = re.sub(r'^pub(?:\([^)]*\))?\s+', '', fd)
+                            inits.append('self.%d%s' % (len(inits), '.clone()' if re.match(r'(Vec\s*<|String\b)', fty) else ''))
+                            continue
+                        mm = re.match(r'(?:pub(?:\([^)]*\))?\s+)?(\w+)\s*:\s*(.+)$', fd, re.S)
+                        if not mm: raise ExtractError('derivedclone: cannot parse field %r of %s' % (fd, name))
+                        fnm, fty = mm.group(1), mm.group(2).strip()
+                        inits.append('%s: self.%s%s' % (fnm, fnm, '.clone()' if re.match(r'(Vec\s*<|String\b)', fty) else ''))
+                    text = 'impl Clone for %s {\n    // rule R11: the expansion of #[derive(Clone)], generated from the field list\n    fn clone(&self) -> (r: Self)\n        ensures %s\n    { %s%s }\n}\n' % (name, ens, name + ('(' if tuple_like else ' { ') + ', '.join(inits) + (')' if tuple_like else ' }'), '')
+                    u.items.append({'item': 'derive(Clone) for %s' % name, 'file': f, 'line': src.count('\n', 0, it.start) + 1,
+                                    'sha256': hashlib.sha256(raw.encode()).hexdigest(), 'rules': ['R11:derive(Clone) expanded field-wise']})
+                    emit(text, 'TPL', '%s:%d' % (rel, i + 1)); i += 1; continue
+                impls = [x for x in items_in(src) if x.kind == 'impl' and x.name == 'Clone for ' + name]
+                if len(impls) != 1:
+                    raise ExtractError('anchor lost: neither derive(Clone) nor impl Clone for %s in %s' % (name, f))
+                itxt = src[impls[0].start:impls[0].end]
+                nl = ['//@ impl %s "impl Clone for %s"' % (f, name), '//@ fn %s clone' % f, '//@ ret r', '//@ spec', '    ensures %s,' % ens, '//@ endfn']
+                if re.search(r'\bfn\s+clone_from\b', itxt):
+                    nl += ['//@ fn %s clone_from' % f, '//@ endfn']
+                nl += ['//@ endimpl']
+                lines[i:i + 1] = nl
+                continue
             if cmd == 'impl':
                 f, hdr = parts[1], parts[2]
                 newhdr = hdr
